@@ -283,13 +283,150 @@ static void case_polyline(vf_rng *r)
 	vf_sample("%s", desc);
 }
 
+/* ---------------------------------- two and three limited dimensions in turn */
+/*
+ * The sequence polyline::set() uses: set(n) (or an empty array), then apply()
+ * for dimension 0, 1 (, 2).  Besides coverage and totals the cut/trim of every
+ * resulting part has to be the place where the line enters/leaves the
+ * visible box (c18_check_parts_nd).
+ */
+static void run_nd(const char *pfx, int dims, size_t n, double * const *v, const double (*rg)[2], bool preset)
+{
+	RT tr(dims);
+	mpt::linepart::array a;
+	for (int d = 0; d < dims; d++) tr.set(d, rg[d][0], rg[d][1]);
+	if (preset) {
+		vf_at("linepart::array::set");
+		VF_CHECK(a.set(n), "cxx:set:refused", "set(%zu) refused", n);
+	}
+	for (int d = 0; d < dims; d++) {
+		vf_at("linepart::array::apply");
+		bool ok = a.apply(tr, d, mpt::span<const double>(v[d], n));
+		vf_count("linepart::array::apply", 1);
+		VF_CHECK(ok, "cxx:apply:refused", "apply(dim %d of %d, %zu values) refused", d, dims, n);
+		if (vf_logging) for (auto &p : a.elements()) vf_log("  %s after dim %d: {raw=%u usr=%u cut=%u trim=%u}", preset ? "preset" : "direct", d, p.raw, p.usr, p._cut, p._trim);
+	}
+	std::vector<c18_part> p = to_parts(a);
+	c18_check_parts_nd(pfx, v, dims, n, rg, p.data(), p.size());
+	VF_CHECK(a.length_raw() == (long) n, "cxx:length_raw:total", "length_raw() = %ld after %d applies of %zu values", a.length_raw(), dims, n);
+	vf_count("monitor:nd-lists", 1);
+}
+static bool nd_interesting(int dims, size_t n, double * const *v, const double (*rg)[2])
+{
+	/* some segment crosses the box boundary */
+	for (size_t i = 0; i + 1 < n; i++) {
+		bool a = true, b = true;
+		for (int d = 0; d < dims; d++) {
+			if (v[d][i] < rg[d][0] || v[d][i] > rg[d][1]) a = false;
+			if (v[d][i + 1] < rg[d][0] || v[d][i + 1] > rg[d][1]) b = false;
+		}
+		if (a != b) return true;
+	}
+	return false;
+}
+/* exhaustive class sequences per dimension */
+static double nd_class_value(int c, unsigned i, int d)
+{
+	double k = 1 + ((i * 7 + d * 3) % 5);
+	switch (c) {
+	case 0: return -k / 3;      /* below */
+	case 1: return 0;           /* at min */
+	case 2: return k / 6;       /* inside */
+	case 3: return 1;           /* at max */
+	default: return 1 + k / 4;  /* above */
+	}
+}
+struct nd_space { int dims; unsigned len; uint64_t count; };
+static std::vector<nd_space> nd_spaces()
+{
+	std::vector<nd_space> s;
+	unsigned max2 = vf_thorough ? 5 : 4, max3 = vf_thorough ? 3 : 2;
+	for (int dims = 2; dims <= 3; dims++) {
+		for (unsigned len = 1; len <= (dims == 2 ? max2 : max3); len++) {
+			uint64_t c = 1;
+			for (unsigned i = 0; i < dims * len; i++) c *= 5;
+			nd_space e = { dims, len, c };
+			s.push_back(e);
+		}
+	}
+	return s;
+}
+static uint64_t nd_ex_count()
+{
+	uint64_t n = 0;
+	for (auto &e : nd_spaces()) n += e.count;
+	return n;
+}
+static void case_nd_exhaustive(uint64_t idx)
+{
+	static const double rg[3][2] = { { 0, 1 }, { 0, 1 }, { 0, 1 } };
+	static const char cname[] = "bmiMa";
+	int dims = 0;
+	unsigned len = 0;
+	for (auto &e : nd_spaces()) {
+		if (idx < e.count) { dims = e.dims; len = e.len; break; }
+		idx -= e.count;
+	}
+	double *v[3] = { 0, 0, 0 };
+	char desc[80];
+	size_t l = 0;
+	uint64_t code = idx;
+	vf_fp_u64(0x2d18); vf_fp_u64(dims); vf_fp_u64(len); vf_fp_u64(idx);
+	for (int d = 0; d < dims; d++) {
+		v[d] = static_cast<double *>(vf_xalloc(len * sizeof(double)));
+		for (unsigned i = 0; i < len; i++) {
+			int c = (int) (code % 5); code /= 5;
+			v[d][i] = nd_class_value(c, i, d);
+			desc[l++] = cname[c];
+		}
+		desc[l++] = d + 1 < dims ? '/' : 0;
+	}
+	if (vf_logging) vf_log("nd exhaustive %s", desc);
+	if (nd_interesting(dims, len, v, rg)) vf_nontrivial();
+	run_nd("array-nd", dims, len, v, rg, true);
+	run_nd("array-nd", dims, len, v, rg, false);
+	for (int d = 0; d < dims; d++) vf_xfree(v[d], len * sizeof(double));
+	vf_count("exhaustive:nd-instances", 1);
+	vf_sample("%d limited dimensions applied in turn, classes %s (b=below m=min i=inside M=max a=above, range [0,1] each), after set(n) and on an empty array", dims, desc);
+}
+/* PRNG reals */
+static void case_nd_prng(vf_rng *r)
+{
+	static const double ranges[][2] = { { 0, 1 }, { -5, -2 }, { 1e-3, 2e-3 }, { -1, 1 }, { 10, 1000 } };
+	int dims = vf_chance(r, 1, 3) ? 3 : 2;
+	size_t n = vf_chance(r, 1, 8) ? 15 + vf_below(r, 40) : 2 + vf_below(r, 12);
+	double rg[3][2], *v[3] = { 0, 0, 0 };
+	char desc[900];
+	size_t l = 0;
+	unsigned vis = 8 + vf_below(r, 7);
+	bool preset = vf_chance(r, 1, 2);
+
+	l += snprintf(desc, sizeof(desc), "%d limited dimensions %s, n=%zu:", dims, preset ? "after set(n)" : "on an empty array", n);
+	for (int d = 0; d < dims; d++) {
+		const double *c = ranges[vf_below(r, 5)];
+		rg[d][0] = c[0]; rg[d][1] = c[1];
+		v[d] = static_cast<double *>(vf_xalloc(n * sizeof(double)));
+		gen_data(r, v[d], n, rg[d][0], rg[d][1], vis);
+		vf_fp(v[d], n * sizeof(double)); vf_fp(rg[d], sizeof(rg[d]));
+		l += snprintf(desc + l, sizeof(desc) - l, " dim %d [%g,%g]:", d, rg[d][0], rg[d][1]);
+		for (size_t i = 0; i < n && l + 30 < sizeof(desc); i++) l += snprintf(desc + l, sizeof(desc) - l, " %.17g", v[d][i]);
+	}
+	vf_fp_u64(preset);
+	vf_log("%s", desc);
+	if (nd_interesting(dims, n, v, rg)) vf_nontrivial();
+	run_nd("array-nd", dims, n, v, rg, preset);
+	for (int d = 0; d < dims; d++) vf_xfree(v[d], n * sizeof(double));
+	vf_sample("%s", desc);
+}
+
 /* ----------------------------------------------------------------- entry */
 static uint64_t n_a1() { return vf_thorough ? 400000 : 40000; }
 static uint64_t n_set() { return vf_thorough ? 2000 : 200; }
 static uint64_t n_a2() { return vf_thorough ? 400000 : 40000; }
 static uint64_t n_pl() { return vf_thorough ? 200000 : 20000; }
+static uint64_t n_ndp() { return vf_thorough ? 3000000 : 150000; }
 
-extern "C" uint64_t vf_cases(void) { return n_a1() + n_set() + n_a2() + n_pl(); }
+extern "C" uint64_t vf_cases(void) { return n_a1() + n_set() + n_a2() + n_pl() + nd_ex_count() + n_ndp(); }
 extern "C" void vf_case(uint64_t idx, vf_rng *r)
 {
 	if (idx < n_a1()) { case_apply1(r); return; }
@@ -297,5 +434,9 @@ extern "C" void vf_case(uint64_t idx, vf_rng *r)
 	if (idx < n_set()) { case_set(idx, r); return; }
 	idx -= n_set();
 	if (idx < n_a2()) { case_apply2(r); return; }
-	case_polyline(r);
+	idx -= n_a2();
+	if (idx < n_pl()) { case_polyline(r); return; }
+	idx -= n_pl();
+	if (idx < nd_ex_count()) { case_nd_exhaustive(idx); return; }
+	case_nd_prng(r);
 }
